@@ -11,6 +11,7 @@ import (
 	bigbuff "github.com/joeycumines/go-bigbuff"
 
 	"verifharness/internal/evlog"
+	"verifharness/internal/gate"
 	"verifharness/internal/hk"
 	"verifharness/internal/rng"
 )
@@ -25,10 +26,16 @@ import (
 func execPubSub(t *trace, script []string) {
 	for _, line := range script {
 		f := strings.Fields(line)
-		if len(f) != 4 || f[0] != "run" {
+		forced := len(f) == 3 && f[0] == "forced"
+		if !forced && (len(f) != 4 || f[0] != "run") {
 			continue
 		}
-		nS, nU, seed := atoi(f[1]), atoi(f[2]), atoi(f[3])
+		var nS, nU, seed, variant int
+		if forced {
+			variant, seed = atoi(f[1]), atoi(f[2])
+		} else {
+			nS, nU, seed = atoi(f[1]), atoi(f[2]), atoi(f[3])
+		}
 		t.Line(line, "ok")
 		root := rng.New(uint64(seed), "pubsub-run")
 		c := make(chan int)
@@ -81,6 +88,63 @@ func execPubSub(t *trace, script []string) {
 		})
 		stop := make(chan struct{})
 		var wg, sendersWG sync.WaitGroup
+		if forced {
+			// Forced schedules (T4) around the start of a Send.  Two manual subscribers u0, u1 are standing; sender s0 is
+			// held at a hook of ping.Send while u1 unsubscribes; u0 receives the message (if one is sent) and leaves at the end.
+			//   variant 0: held after ping.Send's fast-path load  -> the unsubscribe lands between ping.Add and the CAS
+			//   variant 1: held after the load of the CAS loop      -> the CAS fails and is retried
+			//   variant 2: as 0, but u0 leaves as well              -> ping.Send finds the word 0 and returns 0
+			//   variant 3: held after the CAS (armed)               -> the unsubscribe absorbs its copy
+			hold := []string{"caster.send.fast", "caster.send.load", "caster.send.fast", "caster.send.cas"}[variant%4]
+			subscribed := make(chan struct{}, 2)
+			leave := []chan struct{}{make(chan struct{}), make(chan struct{})}
+			for i := 0; i < 2; i++ {
+				i := i
+				name := fmt.Sprintf("u%d", i)
+				wg.Add(1)
+				go func() {
+					defer wg.Done()
+					reg(name)
+					x.Add(1)
+					subscribed <- struct{}{}
+					for {
+						select {
+						case v := <-x.C():
+							log.Add("recv %s v=%d", name, v)
+							x.Wait()
+							log.Add("acked %s v=%d", name, v)
+						case <-leave[i]:
+							x.Add(-1)
+							return
+						case <-stop:
+							x.Add(-1)
+							return
+						}
+					}
+				}()
+			}
+			<-subscribed
+			<-subscribed
+			g := gate.Arm(hold, func(e hk.Event) bool { return who(e.G) == "s0" })
+			wg.Add(1)
+			sendersWG.Add(1)
+			go func() {
+				defer wg.Done()
+				defer sendersWG.Done()
+				reg("s0")
+				log.Add("sendcall s0 v=%d", 1000)
+				n := x.Send(1000)
+				log.Add("sendret s0 ret=%d", n)
+			}()
+			held := g.Wait(gateTimeout)
+			close(leave[1])
+			if variant%4 == 2 {
+				close(leave[0])
+			}
+			time.Sleep(2 * time.Millisecond) // the unsubscribe(s) run as far as they can while the sender is held
+			g.Release()
+			log.Add("forced held=%v", held)
+		}
 		for a := 0; a < nS; a++ {
 			a := a
 			r := root.Fork()
@@ -344,6 +408,9 @@ func pairRendezvousPS(lines []string) []string {
 }
 
 func genPubSub(r *rng.R, tier string, i int) []string {
+	if i < 8 {
+		return []string{fmt.Sprintf("forced %d %d", i%4, r.Intn(1<<30))}
+	}
 	return []string{fmt.Sprintf("run %d %d %d", 1+r.Intn(3), 1+r.Intn(5), r.Intn(1<<30))}
 }
 
